@@ -410,6 +410,28 @@ pub fn check(case: &Case, obs: &mut Obs) {
         true,
         Some(&|| localise(m, t0, v0, &n0, PD::Second(DT), PD::First(DT), DT, 1.0)),
     );
+    // neighbours derived from the (already evaluated) centre state by `update_temperature`:
+    // a derived state must not inherit anything from its parent's evaluation history
+    c.check(
+        "S_res = -dA/dT (update_temperature neighbours)",
+        s.residual_entropy().to_reduced(),
+        contrib_abs(&s, PD::First(DT)),
+        |x| Some(-s.update_temperature(Temperature::from_reduced(x)).ok()?.residual_helmholtz_energy().to_reduced()),
+        t0,
+        RTOL,
+        true,
+        None,
+    );
+    c.check(
+        "dp_dt = dp/dT (update_temperature neighbours)",
+        s.dp_dt(RES).to_reduced(),
+        contrib_abs(&s, PD::Mixed(DV, DT)),
+        |x| Some(s.update_temperature(Temperature::from_reduced(x)).ok()?.pressure(RES).to_reduced()),
+        t0,
+        RTOL,
+        true,
+        None,
+    );
     // ---------- third order ----------
     c.check(
         "d2s_res_dt2 = d(dS/dT)/dT",
@@ -648,7 +670,7 @@ const PART: PartCfg = PartCfg {
 };
 
 pub fn run(ctx: &Ctx) {
-    ctx.set_rule("sampled: proptest genomes -> (model spec: 13 families incl. all functionals as bulk models, shipped/perturbed/random records, 1-3 components, options) x (tau in [0.4,3], eta fraction log-uniform [2e-6,0.9], open-simplex composition, moles 1e-3..1e3) x component indices for the N directions. Each case compares 13 (T,V,N)-derivative getters (orders 1-3) and up to 7 caloric / fugacity-derivative getters with Ridders-extrapolated central differences of the next-lower-order public getter on neighbouring states. Non-trivial: at least 8 comparisons were conclusive (error estimate < 1e-5 of the cancellation-safe scale). Distinct by hash of the canonical case JSON.");
+    ctx.set_rule("sampled: proptest genomes -> (model spec: 13 families incl. all functionals as bulk models, shipped/perturbed/random records, 1-3 components, options) x (tau in [0.4,3], eta fraction log-uniform [2e-6,0.9], open-simplex composition, moles 1e-3..1e3) x component indices for the N directions. Each case compares 15 (T,V,N)-derivative comparisons (13 getters; two of them also with neighbours derived by update_temperature from the evaluated centre) (orders 1-3) and up to 7 caloric / fugacity-derivative getters with Ridders-extrapolated central differences of the next-lower-order public getter on neighbouring states. Non-trivial: at least 8 comparisons were conclusive (error estimate < 1e-5 of the cancellation-safe scale). Distinct by hash of the canonical case JSON.");
     ctx.assume("verdict rule of DESIGN.md 3.3: inconclusive if the Ridders error estimate exceeds 1e-5*S; violation iff |analytic - numeric| > max(50*err, rtol*S), rtol 1e-6 (1e-5 on constant-pressure paths); a mismatch must be confirmed with a second step size");
     ctx.assume("constant-pressure paths only from mechanically stable centres with dp_dv and p conditioning < 50, neighbours accepted only within 30 % of the centre density");
     ctx.assume("ideal-gas part: DIPPR records of parameters/ideal_gas/poling2000.json");
